@@ -376,6 +376,27 @@ pub fn apply<E: Elem>(t: &mut TooDee<E>, m: &mut Model<u32>, act: &Act, c: &mut 
             }
             res
         }
+        "cfs" | "cft" => {
+            // clone_from_slice / clone_from_toodee from a source of size a[0] x a[1] (fresh elements)
+            let (sc2, sr2) = (a[0], a[1]);
+            let n = sc2 * sr2;
+            let valid = if act.op == "cfs" { n == mc * mr } else { (sc2, sr2) == (mc, mr) };
+            if valid {
+                let l = line(n);
+                *m = Model::from_flat(mc, mr, &l);
+            }
+            let items = mk(n);
+            if act.op == "cfs" {
+                guarded(|| toodee::CopyOps::clone_from_slice(t, &items))
+            } else if (sc2 == 0) != (sr2 == 0) {
+                // no such source array can exist
+                drop(items);
+                Err("no source".into())
+            } else {
+                let src = TooDee::from_vec(sc2, sr2, items);
+                guarded(|| toodee::CopyOps::clone_from_toodee(t, &src))
+            }
+        }
         "clr" => {
             m.clear();
             guarded(|| t.clear())
@@ -565,6 +586,10 @@ pub fn actions(c: usize, r: usize, copy: bool, leaks: bool) -> Vec<Act> {
     v.push(Act::new("rsx", &[1]));
     v.push(Act::new("shr", &[]));
     v.push(Act::new("fill", &[]));
+    v.push(Act::new("cfs", &[c, r]));
+    v.push(Act::new("cfs", &[c + 1, r]));
+    v.push(Act::new("cft", &[c, r]));
+    v.push(Act::new("cft", &[r, c + 1]));
     v.push(Act::new("flr", &[]));
     v.push(Act::new("flc", &[]));
     // in-place algorithms: one in-range and one out-of-range tuple each
